@@ -192,6 +192,15 @@ pub fn content_bytes(pt: Pt, n: usize, w: usize, content: Content, seed: u64) ->
                         0xffff
                     }
                 }
+                Content::Blocks => {
+                    let bw = ((seed & 0xffff) as usize).max(1);
+                    let bh = (((seed >> 16) & 0xffff) as usize).max(1);
+                    if (x / bw + y / bh) % 2 == 0 {
+                        0xffff
+                    } else {
+                        0
+                    }
+                }
                 Content::Opaque | Content::SparseAlpha => {
                     if is_alpha {
                         if content == Content::SparseAlpha && sparse.contains(&i) {
@@ -224,7 +233,7 @@ pub fn content_bytes(pt: Pt, n: usize, w: usize, content: Content, seed: u64) ->
                         Content::Random | Content::AlphaEdges | Content::Opaque | Content::SparseAlpha => (r >> 16) as i32,
                         Content::Zeros => 0,
                         Content::Ones => i32::MAX,
-                        Content::Checker => {
+                        Content::Checker | Content::Blocks => {
                             if v16 == 0 {
                                 i32::MIN
                             } else {
@@ -257,10 +266,21 @@ pub fn content_bytes(pt: Pt, n: usize, w: usize, content: Content, seed: u64) ->
 // ---------------------------------------------------------------------------------------
 // The harness container.
 
-// hand-outs of the current operation, per client
-static HANDOUT_COUNTER: [AtomicU64; 4] = [AtomicU64::new(0), AtomicU64::new(0), AtomicU64::new(0), AtomicU64::new(0)];
+// hand-outs of the current operation, per client and per image (0 = source, 1 = destination)
+static HANDOUT_COUNTER: [[AtomicU64; 2]; 4] = [
+    [AtomicU64::new(0), AtomicU64::new(0)],
+    [AtomicU64::new(0), AtomicU64::new(0)],
+    [AtomicU64::new(0), AtomicU64::new(0)],
+    [AtomicU64::new(0), AtomicU64::new(0)],
+];
 pub fn reset_handout_counter() {
-    HANDOUT_COUNTER[(events::current_client() & 3) as usize].store(0, Ordering::Relaxed);
+    let c = &HANDOUT_COUNTER[(events::current_client() & 3) as usize];
+    c[0].store(0, Ordering::Relaxed);
+    c[1].store(0, Ordering::Relaxed);
+}
+#[inline]
+fn next_handout(id: u8) -> u64 {
+    HANDOUT_COUNTER[(events::current_client() & 3) as usize][(id & 1) as usize].fetch_add(1, Ordering::Relaxed) + 1
 }
 
 pub const INJECTED_PANIC: &str = "SIM-INJECTED-PANIC";
@@ -281,7 +301,7 @@ unsafe impl<P: Sync> Sync for SimCore<P> {}
 impl<P> SimCore<P> {
     #[inline]
     fn hand(&self, row: u32, mutable: bool) {
-        let n = HANDOUT_COUNTER[(events::current_client() & 3) as usize].fetch_add(1, Ordering::Relaxed) + 1;
+        let n = next_handout(self.id);
         events::handout(self.id, row, mutable);
         if self.panic_at != 0 && n == self.panic_at {
             panic!("{}", INJECTED_PANIC);
@@ -421,7 +441,7 @@ pub struct YieldView<V> {
 impl<V> YieldView<V> {
     #[inline]
     fn hand(id: u8, yield_rows: bool, panic_at: u64, mutable: bool) {
-        let n = HANDOUT_COUNTER[(events::current_client() & 3) as usize].fetch_add(1, Ordering::Relaxed) + 1;
+        let n = next_handout(id);
         // rows of a band are numbered relative to the band: logged under image ids 2 / 3,
         // which the row-tiling oracle ignores
         events::handout(id + 2, u32::MAX, mutable);
